@@ -185,6 +185,26 @@ CLAIMED.update({
         design="6/C09"),
 })
 
+CLAIMED.update({
+    "C07": dict(
+        technique="Lean 4 proof (every prefix of the swap is a legal state; transfers never write in place; leftovers of a dead run are removed and do not influence what is published; partial files are never taken for complete; stale lock) + crash-point sweep on the real tool: sandbox copied at mutation prefixes, C03 predicate on the copy, rerun from the copy compared with the uninterrupted run",
+        text=("C07_crash_during_publish, C07_crash_during_transfers, C07_leftovers_ignored, C07_no_leftovers, C07_partial_not_unmodified, "
+              "C07_partial_not_shortcut and C07_stale_lock are proved for all prior filesystems, staged file sets, queues and crash "
+              "indices; real update runs are cut at stratified mutation prefixes, every swap rename/rmtree and at delivered chunks, and "
+              "each crash copy must satisfy the live-tree predicate and, after a rerun (same or newer upstream), equal the uninterrupted "
+              "reference tree with no *.apt_mirror_* entry left."),
+        note="PARTIAL: 'rerun tree = uninterrupted tree' as one theorem over whole runs is not proved (it needs the C08 canonical-form theorem); it is checked from sampled crash points of real runs. Process death only (no fsync analysis). Wipe protection disabled (S4). Trusted: Lean kernel, model, harness tracer (crash point = before the k-th attempted mutation).",
+        design="6/C07"),
+    "C08": dict(
+        technique="Lean 4 proof of the per-file fixed-point facts (complete pool file never requested, unchanged metadata accepted without body, download sets the announced date on every path, immediately repeated request is 'unmodified', a changed size/date is fetched) + history sweep on the real tool against a first-ever mirror and a repeat run with transfer log",
+        text=("C08_pool_no_transfer, C08_unchanged_no_body, C08_download_sets_date, C08_second_pass_unmodified, C08_changed_is_fetched proved "
+              "for all filesystems and responses; histories V1..Vn with faulty, killed or missing runs in between are executed on the "
+              "real tool and the final (path,size,sha1,mtime) listing must equal a first-ever mirror of Vn; mtimes must equal the "
+              "served Last-Modified; the repeat run must transfer no body and change no inode."),
+        note="PARTIAL: the whole-tree canonical-form theorem (tree after any history = fresh mirror) is not proved; it is checked on generated histories. Wipe protection disabled (S4), S3 worlds skipped. Trusted: Lean kernel, model, harness upstream simulator.",
+        design="6/C08"),
+})
+
 NOT_YET = {}
 
 
